@@ -201,7 +201,7 @@ def g_type(rng, depth, cfg=None, top=True):
         return (k,)
     if k == 'std':
         return ('std', rng.choice(['decimal', 'fraction', 'datetime', 'date', 'time', 'path', 'pathlike', 'pattern', 'pattern_str', 'pattern_bytes']
-                                  + (['enum_tuple'] * 3 if (cfg or {}).get('enum_tuple') else [])))
+                                  + (['enum_tuple'] * 3 + ['vol_int', 'vol_tuple', 'vol_tuple', 'vol_list', 'vol_list'] if (cfg or {}).get('enum_tuple') else [])))
     if k == 'seq':
         return ('seq', rng.choices(['list', 'tuple', 'set', 'frozenset'], [4, 3, 1.2, 0.8])[0], g_type(rng, depth - 1, cfg, False))
     if k == 'tuple':
@@ -342,7 +342,12 @@ def g_valid(rng, term, depth=3):
                 'path': ['a/b', '', '/x', 'c.txt'], 'pathlike': ['a/b', 'x'],
                 'pattern': ['a+b', '(', 'a{4294967296}', '[a-z]*', ''], 'pattern_str': ['a+b', '(', '\\d+'],
                 'pattern_bytes': [b'a+', b'(', b'x'],
-                'enum_tuple': [[1, 2], (3, 4), [[1], [2]], [1, [2]], [1, 2, 3], 5, 'x', [1, 2.0], [True, 2], [{}, 2], []]}[s]
+                'enum_tuple': [[1, 2], (3, 4), [[1], [2]], [1, [2]], [1, 2, 3], 5, 'x', [1, 2.0], [True, 2], [{}, 2], []],
+                'vol_int': [5, [1, 2], [], 'x', [1, 'x'], 2.5, (3,)],
+                'vol_tuple': [[1, 2], [[1, 2], [3, 4]], (5, 6), [1], [1, 2, 3], 'x', [[1, 2], [3]], [1, 'x']],
+                'vol_list': [[1, 2], [[1], [2, 3]], [], 5, [[1], 'x'], [1, [2]]],
+                'vol_range': [[0, 10, 11], {'start': 0, 'end': 10, 'n': 6}, [[0, 10, 11]], [0, 10], 'x', [[0, 10, 11], [1, 2, 3]]],
+                'range_int': [[0, 10, 11], {'start': 0, 'end': 10, 'n': 6}, {'start': 0, 'end': 10, 'step': 2}, [0], 'x', {'start': 0}]}[s]
         return rng.choice(pool)
     if k == 'seq':
         items = [g_valid(rng, term[2], depth - 1) for _ in range(rng.choice([0, 1, 2, 2, 3]))]
